@@ -27,9 +27,11 @@ SetAtIdx(s, i, v)  == [s EXCEPT ![i + 1] = v]
 SwapAt(s, i, j)    == [s EXCEPT ![i + 1] = s[j + 1], ![j + 1] = s[i + 1]]
 Rev(s)             == [i \in 1..Len(s) |-> s[Len(s) + 1 - i]]
 Count(s, x)        == Cardinality({i \in DOMAIN s : s[i] = x})
-SameBag(s, t)      == Len(s) = Len(t) /\ \A i \in DOMAIN s : Count(s, s[i]) = Count(t, s[i])
-NoDup(s)           == \A i, j \in DOMAIN s : s[i] = s[j] => i = j
-IndexOf0(s, x)     == IF \E i \in DOMAIN s : s[i] = x THEN (CHOOSE i \in DOMAIN s : s[i] = x /\ \A j \in 1..i-1 : s[j] # x) - 1 ELSE -1
+\* the bag of a sequence as a function element -> multiplicity (a left fold: linear in the length)
+BagOf(s)           == FoldLeft(LAMBDA acc, x : IF x \in DOMAIN acc THEN [acc EXCEPT ![x] = @ + 1] ELSE TLCEval(acc @@ (x :> 1)), <<>>, s)
+SameBag(s, t)      == Len(s) = Len(t) /\ BagOf(s) = BagOf(t)
 Members(s)         == {s[i] : i \in DOMAIN s}
+NoDup(s)           == Cardinality(Members(s)) = Len(s)
+IndexOf0(s, x)     == IF \E i \in DOMAIN s : s[i] = x THEN (CHOOSE i \in DOMAIN s : s[i] = x /\ \A j \in 1..i-1 : s[j] # x) - 1 ELSE -1
 Zero(z)            == z      \* the Go zero value of the element type is carried in cfg.zero
 =============================================================================
